@@ -24,8 +24,8 @@ static size_t pickIndex(Rng& r, size_t size, bool* inRange) {
 
 // variants of a name that must NOT match unless an element with exactly that name exists
 static std::string nameVariant(Rng& r, const std::string& n, int* kind) {
-    int k = r.range(0, 4); *kind = k;
-    switch (k) { case 0: return n; case 1: return lowerS(n) == n ? upperS(n) : lowerS(n); case 2: return n + " "; case 3: return n + "_absent"; default: return ""; }
+    int k = r.range(0, 6); *kind = k;
+    switch (k) { case 0: return n; case 1: return lowerS(n) == n ? upperS(n) : lowerS(n); case 2: return n + " "; case 3: return n + "_absent"; case 5: return n + "\t\r\n"[r.below(3)]; case 6: return n.empty() ? n : n.substr(0, n.size() - 1); default: return ""; }
 }
 
 template <class Names> static long firstExact(const Names& names, const std::string& n) { for (size_t i = 0; i < names.size(); ++i) if (names[i] == n) return (long)i; return -1; }
